@@ -50,7 +50,8 @@ def cases(draw):
 
 META_OPS = [("del", "version"), ("set", "version", 2), ("set", "version", 4), ("set", "version", "3x"),
             ("del", "ovni.part"), ("del", "ovni.tid"), ("set", "ovni.tid", 0), ("del", "ovni.pid"), ("set", "ovni.pid", 0),
-            ("del", "ovni.loom"), ("del", "ovni.finished"), ("set", "ovni.finished", 0), ("del", "ovni.require"),
+            ("del", "ovni.loom"), ("del", "ovni.finished"), ("set", "ovni.finished", 0), ("set", "ovni.finished", 2), ("set", "ovni.finished", -1),
+            ("set", "ovni.finished", 0.5), ("set", "ovni.finished", "1"), ("set", "ovni.finished", None), ("del", "ovni.require"),
             ("del", "ovni.lib.version"), ("del", "ovni.lib.commit"), ("del", "ovni.lib"),
             ("delall", "app_id"), ("delall", "loom_cpus"), ("del", "ovni"), ("set", "ovni.loom", "a/b"),
             # a stream that carries events but is declared as another kind of part
